@@ -9,11 +9,22 @@ PROP = {'level': 'proof',
           "array; collect_const!'s length pass and fill pass agree and even with disagreeing passes the "
           'length==CAP assert excludes an unwritten slot; ArrayBuilder refines a bounded vector for every '
           'push/clone/clone_from/build/drop history, clone_from between two builders of any fill levels '
-          'leaves the target an exact clone of the source and drops exactly the old target elements '
-          '(the model is generic in the element type; zero-sized element types '
-          'are exercised through the same model with count observations). That break/continue/return/panic '
-          'have their Rust meaning inside the expansion is observed (generated programs), not proved.',
- 'sources': [('harness', 'c11'), ('programs', 'c11')],
+          'leaves the target an exact clone of the source and drops exactly the old target elements (the '
+          'model is generic in the element type; zero-sized element types are exercised through the same '
+          'model with count observations). That break/continue/return/panic have their Rust meaning inside '
+          'the expansion is observed (generated programs), not proved. Part 2 (the macros as EXPRESSIONS, 17 '
+          'theorems + generated programs): all four macros, with a closure literal or any other expression '
+          "as closure argument, evaluate every argument expression once and in std's order (array first); a "
+          'well-behaved closure is called once per element in index order with the element at that index; '
+          'the expansions bind only mangled names (__konst_am_*, __konst_pc_*), so no caller variable, '
+          'function, type, const, static or unit struct with an ordinary name can meet them (skeleton model '
+          'of every identifier the expansions bind or declare, iff-theorems for every name); the expansions '
+          'call their helpers by path, so no trait method of the caller can be picked. Findings made with '
+          'this part and repaired in /repo: F11a (76ed0a3: method syntax let a caller `len` make '
+          'map!/from_fn! return arrays with unwritten slots), F11b (5af8e6b: map_! evaluated a '
+          'function-valued closure argument before the array), F11c (c6bef38: plain binder names clashed '
+          'with caller consts); as-found definitions and witnesses in Legacy/ArrayEval.lean.',
+ 'sources': [('harness', 'c11'), ('programs', 'c11'), ('programs', 'c11x')],
  'exhaustive': True,
  'rule': 'Exhaustive: every ArrayBuilder history over {push, clone-keep-clone, clone-drop-clone} up to depth '
          '6 (quick) / 8 (thorough) ending in build or drop, capacities 0..=4 (+ fill/overfill runs on '
@@ -28,12 +39,40 @@ PROP = {'level': 'proof',
          'every index inside a fn, map!/from_fn! with the exits that cannot spin, and map_!/from_fn_! '
          'producing [(); N] as const initialisers (lengths 1,3); builder histories containing a clone whose '
          'element Clone panics on its j-th call (depth 4 / 5). Clone::clone_from between TWO builders '
-         '(cur.clone_from(&t) and t.clone_from(&cur), t a second builder with m = 0..=N pushed values): every '
-         'history over {push, the 2(N+1) clone_from forms} up to depth 3 (quick) / 4 (thorough) also mixed '
-         'with plain clones, every (i pushes, clone_from with m = 0..=N+1, j pushes, build|drop) for '
+         '(cur.clone_from(&t) and t.clone_from(&cur), t a second builder with m = 0..=N pushed values): '
+         'every history over {push, the 2(N+1) clone_from forms} up to depth 3 (quick) / 4 (thorough) also '
+         'mixed with plain clones, every (i pushes, clone_from with m = 0..=N+1, j pushes, build|drop) for '
          'capacities 0..=4 (selection on 6), with drop-logging and zero-sized elements and together with '
          'panicking-Clone clones; after each clone_from len / is_full / as_slice of the target and as_slice '
-         'of the source; oracle: Vec with `a = b.clone()` (the documented meaning of clone_from).',
+         'of the source; oracle: Vec with `a = b.clone()` (the documented meaning of clone_from). PART 2 '
+         '(vlib/progs/c11x.py, 1 626 call sites; the 123 on which F11a/b/c showed are a regression corpus '
+         'compiled and run FIRST in 4 chunks of their own, the others in 16 parallel chunks; a call site '
+         'rustc rejects answers `reject`): (a) argument evaluation: map!/map_! x array-argument expressions '
+         '{cursor call, counter block, the call inside if / match} x 21 closure forms (literal with / '
+         'without parameter type, return type, mut, trailing comma, if / match bodies, tuple / struct / ref '
+         'patterns over Copy and non-Copy elements, function path, module path, generic function, a function '
+         'EXPRESSION with a side effect as call and as block, closure variable, move closure) x lengths '
+         '0..=3 x 3 streams of arrays; from_fn!/from_fn_! x {no annotation, [u64; N] =>, [_; N] =>, _ =>, '
+         '([u64; N]) =>} x 15 closure forms x lengths 0..=3; observed value | evaluations of the array and '
+         'of the function expression | order of all events incl. every closure call (call number, argument); '
+         'oracle: the same expressions handed to <[T;N]>::map / core::array::from_fn. (b) positions: '
+         "indexed, summed, .len(), ==, as function argument, in a tuple, in a closure, in the caller's loop, "
+         'in a generic const fn of another type, two invocations, nested as array argument, nested in the '
+         'closure of each of the four macros, block / if / match as array argument, trailing comma, function '
+         'paths, inferred lengths (let type, generic argument, ==), match bodies with `=>`, const / static '
+         'initialisers (lengths 0, 1, 3); collect_const! as let / index / len / sum / const / &const / '
+         'static / in const fn / in closure / twice / nested in itself / inside and around map! / in a '
+         'generic fn. (c) names: the 12 plain identifiers the four expansions bound as found (array len out '
+         'i input arr consumer builder elem mapped func __x) + 4 controls x {closure parameter, captured '
+         'variable, array-argument variable, function called / passed as path / producing the array, const '
+         'used / passed as path / in the length annotation, static, unit struct, type alias in the closure '
+         'signature / annotation, module} x the four macros, and the 12 mangled binder names (__konst_am_*, '
+         '__konst_pc_*; out of scope) x 7 forms; collect_const!: its 5 mangled items / generics, 9 bindings, '
+         '6 controls x 8 declaration forms; verdict accept/reject and value. (d) methods: a caller trait '
+         '(blanket or for arrays, &self or self receiver) with a method len (returning 0, 1, 2, 5) / next / '
+         'push / build / infer_length_from_consumer / is_full / into_inner / to_right / reachability_hint x '
+         'the four macros x lengths 0..=3, and as const initialisers; observed value (never-written slots '
+         'shown as U, never read) | closure calls.',
  'explanation': 'Theorems (Props/C11.lean) are about the Lean model of the emitted loops; the transcripts '
                 'tie the model to the code (real macros expanded by rustc, real ArrayBuilder) and the std '
                 'reference to real std.',
@@ -41,4 +80,9 @@ PROP = {'level': 'proof',
                  'evaluations of collect_const! see the same items (the two-stream theorem '
                  'collectConst_len_eq_fill does not need this)',
                  "rustc's handling of break/continue/return/panic inside the inlined closure body is "
-                 'observed on generated programs, not modelled from the language definition']}
+                 'observed on generated programs, not modelled from the language definition',
+                 "part 2: rustc's name resolution for macro_rules expansions (local variables and labels "
+                 'hygienic; items, generic parameters, method names and traits in scope resolved at the call '
+                 'site; the order of method probing) is encoded in the skeleton / probing model and tied to '
+                 'rustc by the accept/reject and value transcripts, not derived from the language '
+                 'definition']}
